@@ -45,6 +45,8 @@ func errName(err error) string {
 		return "EDeadlineExceeded"
 	case errors.Is(err, gocql.ErrConnectionClosed):
 		return "EConnClosed"
+	case errors.Is(err, io.ErrShortWrite):
+		return "EShortWrite"
 	case errors.Is(err, io.EOF):
 		return "EEOF"
 	case errors.As(err, &ce):
